@@ -87,3 +87,13 @@ dispatcher("completed_file", "__enabled_plugins_for_completed_file", "('done', L
            extra_ensures=["implies(context_map is None and not old(context).in_fix_mode, context.line_number == line_number)"],
            extra_inv=["implies(context_map is None and not old(context).in_fix_mode, context.line_number == line_number)"],
            extra_mods=["context.line_number"])
+
+register(Contract(
+    key=PSC + "report_on_triggered_rules", properties=["C07", "C12"],
+    raises=[],
+    ensures=["len(self.__reported) == 0",
+             "self.owning_manager.number_of_scan_failures >= old(self.owning_manager.number_of_scan_failures)"],
+    modifies=["self.__reported.$list", "number_of_scan_failures", "$presentation_state"],
+    loops={0: Loop(invariant=["self.owning_manager.number_of_scan_failures >= old(self.owning_manager.number_of_scan_failures)",
+                              "self.owning_manager is old(self.owning_manager)"])},
+))
